@@ -142,6 +142,7 @@ impl FreePoint {
 
     /// Intern this point and return its handle (what `compress` does).
     pub fn handle(&self) -> FreeCompressed {
+        crate::coop::yield_point("compress");
         if self.0.is_empty() {
             return FreeCompressed([0u8; 32]);
         }
@@ -164,6 +165,7 @@ impl FreePoint {
 
 impl FreeCompressed {
     pub fn lookup(&self) -> Option<FreePoint> {
+        crate::coop::yield_point("decompress");
         if self.0 == [0u8; 32] {
             return Some(FreePoint::zero());
         }
@@ -273,6 +275,7 @@ where
     J: IntoIterator,
     J::Item: Borrow<FreePoint>,
 {
+    crate::coop::yield_point("msm");
     // no intermediate copy of the scalars (they may be secrets)
     let mut si = scalars.into_iter();
     let mut pi = points.into_iter();
@@ -333,9 +336,12 @@ impl VartimePrecomputedMultiscalarMul for FreePrecomp {
         I: IntoIterator,
         I::Item: Borrow<FreePoint>,
     {
-        FreePrecomp {
+        crate::coop::yield_point("precomp_new");
+        let t = FreePrecomp {
             points: static_points.into_iter().map(|p| p.borrow().clone()).collect(),
-        }
+        };
+        crate::coop::yield_point("precomp_built");
+        t
     }
 
     fn optional_mixed_multiscalar_mul<I, J, K>(
@@ -351,6 +357,7 @@ impl VartimePrecomputedMultiscalarMul for FreePrecomp {
         J::Item: Borrow<Scalar>,
         K: IntoIterator<Item = Option<FreePoint>>,
     {
+        crate::coop::yield_point("precomp_msm");
         let ss: Vec<Scalar> = static_scalars.into_iter().map(|s| *s.borrow()).collect();
         let ds: Vec<Scalar> = dynamic_scalars.into_iter().map(|s| *s.borrow()).collect();
         let dp: Vec<FreePoint> = dynamic_points.into_iter().collect::<Option<Vec<_>>>()?;
